@@ -93,8 +93,8 @@ def hidden_weight_feeds_crossed_derived(spec):
 
 
 def crossed_derived_level_impossible(spec):
-    """a crossing contains a within-trial derived factor one of whose levels no single trial can realise (together with
-    the other crossed levels)"""
+    """some combination of a crossing is impossible for a reason other than a directly excluded crossed level: a
+    within-trial derived level (crossed, or excluded while depending on crossed factors) that no trial can realise"""
     if not _is_spec(spec):
         return False
     from . import ref as R
@@ -102,16 +102,15 @@ def crossed_derived_level_impossible(spec):
         r = R.Ref(spec)
     except Exception:
         return False
-    dm = S.derived_by_name(spec)
     for b in S.leaf_blocks(spec["block"]):
         for c in S.block_crossings(b):
-            if not any(f in dm for f in c):
+            if not c:
                 continue
             try:
-                info = r.crossing_info(c, b["design"], [], b["rcc"])
+                info = r.crossing_info(c, b["design"], b.get("constraints", []), b["rcc"])
             except Exception:
                 continue
-            if info["removed"]:
+            if info["removed_indirect"]:
                 return True
     return False
 
@@ -151,3 +150,24 @@ def _p3s(case):
 @predicate("crossed_derived_level_impossible")
 def _p3(case, failure):
     return crossed_derived_level_impossible(case)
+
+
+def run_length_on_stride(spec):
+    """a run-length constraint targets a derived factor whose stride is > 1"""
+    if not _is_spec(spec):
+        return False
+    dm = S.derived_by_name(spec)
+    for c in S.all_constraints(spec["block"]):
+        if c["kind"] in ("atmost", "atleast", "exactly_row") and c.get("factor") in dm and S.window_of(dm[c["factor"]])[1] > 1:
+            return True
+    return False
+
+
+@predicate("run_length_on_stride.shape")
+def _p4s(case):
+    return run_length_on_stride(case)
+
+
+@predicate("run_length_on_stride")
+def _p4(case, failure):
+    return run_length_on_stride(case) and _bucket(failure).startswith("solution-space")
